@@ -2,7 +2,9 @@ package filecheck
 
 import (
 	"fmt"
+	"runtime"
 	"sort"
+	"sync/atomic"
 	"time"
 
 	txfile "github.com/elastic/go-txfile"
@@ -27,6 +29,25 @@ func recordHistory(c *core.Case, cfg Config, prog []Op, res *core.Result, prop s
 	w.KeepStates = true
 	w.Markers = true
 	w.TraceOn = c.Verbose
+	if c.Idx%5 == 2 {
+		// writer-ahead schedule: before each of the two sync requests of a commit
+		// the background writer is given the time to execute every write that
+		// has been scheduled so far, so the sync request finds an empty queue
+		// (schedule perturbation only; no verdict depends on it)
+		var emptySyncs int64
+		w.Hook = func(name string, arg int) {
+			switch name {
+			case "commit/before-data-sync", "commit/before-meta-sync":
+				waitWriterIdle(w.Disk)
+			case "writer/batch":
+				if arg == 0 {
+					atomic.AddInt64(&emptySyncs, 1)
+				}
+			}
+		}
+		defer func() { res.Add("sync_commands_without_writes", atomic.LoadInt64(&emptySyncs)) }()
+		res.Add("writer_ahead_histories", 1)
+	}
 	if !w.Open() {
 		return w
 	}
@@ -36,6 +57,21 @@ func recordHistory(c *core.Case, cfg Config, prog []Op, res *core.Result, prop s
 		w.CloseFile()
 	}
 	return w
+}
+
+// waitWriterIdle yields until the simulated disk saw no new I/O call for a few
+// consecutive rounds (bounded; used to perturb schedules only).
+func waitWriterIdle(d *simdisk.Disk) {
+	prev, stable := d.Seq(), 0
+	for i := 0; i < 400 && stable < 4; i++ {
+		runtime.Gosched()
+		time.Sleep(10 * time.Microsecond)
+		if cur := d.Seq(); cur == prev && !d.InFlight() {
+			stable++
+		} else {
+			prev, stable = cur, 0
+		}
+	}
 }
 
 // imageChecker opens crash images and compares them with the recorded states.
